@@ -1,0 +1,15 @@
+//go:build verif
+// +build verif
+
+package bal_gslb
+
+// VerifC05Table returns the sub-cluster table (names and weights in list order, totalWeight, single, avail)
+// for the out-of-tree verification harness of property C05 (build tag verif). Add-only.  It deliberately does
+// NOT take bal.lock: the harness is sequential and must be able to look at a balancer whose mutex was left locked.
+func (bal *BalanceGslb) VerifC05Table() (names []string, weights []int, totalWeight int, single bool, avail int) {
+	for _, sub := range bal.subClusters {
+		names = append(names, sub.Name)
+		weights = append(weights, sub.weight)
+	}
+	return names, weights, bal.totalWeight, bal.single, bal.avail
+}
